@@ -39,10 +39,11 @@ Count(s, x)   == Cardinality({i \in DOMAIN s : s[i] = x})
 Without(s, S) == SelectSeq(s, LAMBDA x : x \notin S)
 IndexOf(s, x) == CHOOSE i \in DOMAIN s : s[i] = x
 NoDup(s)      == \A i, j \in DOMAIN s : s[i] = s[j] => i = j
-DedupFirst(s) == SelectSeq([i \in DOMAIN s |-> IF \E j \in 1..(i-1) : s[j] = s[i] THEN 0 ELSE s[i]],
-                           LAMBDA x : x # 0)
-DedupLast(s)  == SelectSeq([i \in DOMAIN s |-> IF \E j \in (i+1)..Len(s) : s[j] = s[i] THEN 0 ELSE s[i]],
-                           LAMBDA x : x # 0)
+(* (by position: the elements may be ids, of which 0 is one) *)
+DedupFirst(s) == LET keep == SelectSeq([i \in DOMAIN s |-> i], LAMBDA i : ~\E j \in 1..(i-1) : s[j] = s[i])
+                 IN  [k \in DOMAIN keep |-> s[keep[k]]]
+DedupLast(s)  == LET keep == SelectSeq([i \in DOMAIN s |-> i], LAMBDA i : ~\E j \in (i+1)..Len(s) : s[j] = s[i])
+                 IN  [k \in DOMAIN keep |-> s[keep[k]]]
 Rev(s)        == [i \in DOMAIN s |-> s[Len(s) + 1 - i]]
 InsAt(s, k, x) == SubSeq(s, 1, k) \o <<x>> \o SubSeq(s, k + 1, Len(s))   \* x lands at 0-based index k
 InsSeqAt(s, k, xs) == SubSeq(s, 1, k) \o xs \o SubSeq(s, k + 1, Len(s))
